@@ -25,7 +25,10 @@ Inductive rule :=
   | RMissingReturn  (* one path through the body no longer returns; path = branch choices along the return spine *)
   | RWrongReturn    (* path -> return e: the value is replaced by a literal of another type; arg = literal choice *)
   | RReturnNoValue  (* path -> return e in a non-void function: the value is dropped *)
-  | RNonBoolCond.   (* path -> if/while/assert statement or cond expression; arg = literal choice *)
+  | RNonBoolCond    (* path -> if/while/assert statement or cond expression; arg = literal choice *)
+  | RVoidVariable   (* path -> expression statement e: it becomes  let z: void = e  (a variable of type void); arg = z *)
+  | RDupParam       (* parameter number arg (>= 1) of the function gets the name of its first parameter *)
+  | RMainParam.     (* the function called main gets a parameter (arg: int) in front *)
 
 Record position := { p_fn : nat; p_path : list nat; p_arg : N }.
 
@@ -270,6 +273,20 @@ Fixpoint unret (path : list nat) (s : stmt) {struct s} : option stmt :=
   | _ => None
   end.
 
+Definition rw_void_variable (z : ident) (s : stmt) : option stmt :=
+  match s with SExpr e => Some (SLet false z TVoid e) | _ => None end.
+
+(* parameter j (>= 1) renamed to the name of parameter 0; only when the result really has a repeated name *)
+Fixpoint rename_nth (j : nat) (x : ident) (ps : list (ident * ty)) : list (ident * ty) :=
+  match ps with [] => [] | (y, t) :: r => match j with O => (x, t) :: r | S j' => (y, t) :: rename_nth j' x r end end.
+Definition dup_param (j : nat) (ps : list (ident * ty)) : option (list (ident * ty)) :=
+  match j, ps with
+  | S _, (x, _) :: _ =>
+      let ps' := rename_nth j x ps in
+      if Nat.ltb j (length ps) && negb (nodupb (map fst ps')) then Some ps' else None
+  | _, _ => None
+  end.
+
 (* ---------------------------------------------------------------- the catalogue *)
 Definition mut_body (r : rule) (pos : position) (p : program) (k : nat) (d : fn) : option stmt :=
   let F := sigs_of (pfns p) in
@@ -296,12 +313,14 @@ Definition mut_body (r : rule) (pos : position) (p : program) (k : nat) (d : fn)
   | RWrongReturn => at_stmt path no_e (rw_wrong_return (fret d) arg) body
   | RReturnNoValue => at_stmt path no_e (rw_return_novalue (fret d)) body
   | RNonBoolCond => at_stmt path (rw_cond_e arg) (rw_cond_s arg) body
+  | RVoidVariable => at_stmt path no_e (rw_void_variable arg) body
+  | RDupParam | RMainParam => None                 (* these change the parameter list, not the body: see mut *)
   end.
 
 Fixpoint replace_nth {A} (n : nat) (v : A) (l : list A) : list A :=
   match l with [] => [] | a :: r => match n with O => v :: r | S n' => a :: replace_nth n' v r end end.
 
-Definition mut (r : rule) (pos : position) (p : program) : option program :=
+Definition mut_in_body (r : rule) (pos : position) (p : program) : option program :=
   match nth_error (pfns p) (p_fn pos) with
   | None => None
   | Some d =>
@@ -310,6 +329,40 @@ Definition mut (r : rule) (pos : position) (p : program) : option program :=
           let d' := {| fname := fname d; fparams := fparams d; fret := fret d; fbody := b' |} in
           Some {| pglobals := pglobals p; pfns := replace_nth (p_fn pos) d' (pfns p); pmain := pmain p |}
       | None => None end
+  end.
+
+Definition with_params (p : program) (k : nat) (d : fn) (ps : list (ident * ty)) : program :=
+  {| pglobals := pglobals p;
+     pfns := replace_nth k {| fname := fname d; fparams := ps; fret := fret d; fbody := fbody d |} (pfns p);
+     pmain := pmain p |}.
+
+Definition mut_dup_param (pos : position) (p : program) : option program :=
+  match nth_error (pfns p) (p_fn pos) with
+  | Some d => match dup_param (N.to_nat (p_arg pos)) (fparams d) with
+              | Some ps' => Some (with_params p (p_fn pos) d ps')
+              | None => None end
+  | None => None
+  end.
+
+(* main with a parameter: produced only when the entry-point rule (main : () -> int) really fails afterwards *)
+Definition mut_main_param (pos : position) (p : program) : option program :=
+  match nth_error (pfns p) (p_fn pos) with
+  | Some d =>
+      if N.eqb (fname d) (pmain p) then
+        let p' := with_params p (p_fn pos) d ((p_arg pos, TInt) :: fparams d) in
+        match slookup (pmain p') (sigs_of (pfns p')) with
+        | Some ([], TInt) => None
+        | _ => Some p'
+        end
+      else None
+  | None => None
+  end.
+
+Definition mut (r : rule) (pos : position) (p : program) : option program :=
+  match r with
+  | RDupParam => mut_dup_param pos p
+  | RMainParam => mut_main_param pos p
+  | _ => mut_in_body r pos p
   end.
 
 (* candidate names for ROtherFnLocal at function k (used by the driver to enumerate) *)
